@@ -281,6 +281,7 @@ def s3Oracle (E : Ecu) (t : S3Cfg) : Oracle (Sess × Nat) :=
       | .reset _ =>
         match E.rst cur with
         | .pos => ((1, 0), { fin := .pos })
+        | .illegal true => ((1, 0), { fin := .illegal true })
         | a => ((cur, n + 1), { fin := a })
       | .ping => ((cur, 0), { fin := .pos })
       | .hook _ => ((cur, n + 1), { fin := .nrc 0x11 }) }
@@ -301,6 +302,7 @@ def lockedOracle (E : Ecu) (locked : Sess → Sess → Bool) : Oracle (Sess × B
       | .reset _ =>
         match E.rst s.1 with
         | .pos => ((1, false), { fin := .pos })
+        | .illegal true => ((1, false), { fin := .illegal true })
         | a => (s, { fin := a })
       | .ping => (s, { fin := .pos })
       | .hook _ => (s, { fin := .nrc 0x11 }) }
